@@ -1,5 +1,5 @@
 (* Extraction of the syntax-layer model (lexer, escape, quoting, ...) -- ExtrOcamlBasic only. *)
-From OV Require Import Base.Strs Syn.Escape Syn.Quote Syn.Ast Syn.Emitter Lex.Lexer Syn.Parser Syn.Wf Syn.StrictProfile.
+From OV Require Import Base.Strs Syn.Escape Syn.Quote Syn.Ast Syn.Emitter Lex.Lexer Syn.Parser Syn.Wf Syn.StrictProfile Rt.TokRound Rt.TokRoundEx.
 Require Import ExtrOcamlBasic.
 
 Definition cls_of (tbl : list (N * N)) (c : N) : N :=
@@ -13,6 +13,9 @@ Definition parse_tbl (strict : bool) (cls : list (N * N)) (nums : list (str * (b
            (lines : list (str * str)) : parse_result :=
   parse_model (cls_of cls) (numcanon_of nums) (fun raw => str_in raw holos) strict lines.
 
+Definition core_shape_tbl (tbl : list (N * N)) (d : doc) (lines : list (str * str)) : N :=
+  core_shape_check (cls_of tbl) d lines.
+
 Extraction "../ocaml/gen/syn.ml" extract_anchor tokenize_tbl tkind_code escape unescape escape_opt unescape_opt escape_safe
   needs_quotes emit_str always_quote_key match_identifier match_annotation match_expression match_variable reserved_prefix scalar_class
-  emit emit_value parse_tbl doc_clauses strict_profile.
+  emit emit_value parse_tbl doc_clauses strict_profile core_shape_tbl.
